@@ -1425,4 +1425,468 @@ pub fn profiles() -> Vec<Profile> {
     ]
 }
 
-//@@ORACLES@@
+// ---------------------------------------------------------------------------------------------
+// oracles (pure functions over the trace)
+// ---------------------------------------------------------------------------------------------
+
+fn fail(at: usize, sig: &str, what: String) -> Option<OracleFail> {
+    Some(OracleFail { at, what, signature: sig.to_string() })
+}
+
+#[derive(Clone, Debug)]
+struct Sess {
+    k: usize,
+    id: u64,
+    /// first op after which an end of this session is the script's own doing
+    disc_op: Option<usize>,
+    /// first op after which the session MUST end on both sides (judged at `note settled`)
+    must_end: Option<usize>,
+    /// the client object is no longer driven (its status is frozen / unobservable)
+    silent: bool,
+    /// the client object was replaced by `t-cnew`
+    replaced: bool,
+}
+
+#[derive(Default)]
+struct Ctx {
+    slot: BTreeMap<usize, usize>,
+    by_id: HashMap<u64, usize>,
+    sess: Vec<Sess>,
+    mode: String,
+    churn: bool,
+    last_state: Option<(usize, St)>,
+    /// index of the last t-supd
+    last_supd: Option<usize>,
+    /// the previous op (ignoring t-ev / note) was a t-supd
+    after_supd: bool,
+    /// events were drained to `none` since the last t-supd and nothing touched the server since
+    drained: bool,
+    ghost: bool,
+}
+
+impl Ctx {
+    fn add(&mut self, k: usize, id: u64) {
+        if let Some(old) = self.slot.get(&k).copied() {
+            let s = &mut self.sess[old];
+            s.silent = true;
+            s.replaced = true;
+        }
+        self.sess.push(Sess { k, id, disc_op: None, must_end: None, silent: false, replaced: false });
+        self.slot.insert(k, self.sess.len() - 1);
+        self.by_id.insert(id, self.sess.len() - 1);
+    }
+    fn sess_of(&self, who: &str) -> Option<usize> {
+        match parse_who(who)? {
+            Who::C(k) => self.slot.get(&k).copied(),
+            Who::S(id) => self.by_id.get(&id).copied(),
+        }
+    }
+    /// bookkeeping common to all oracles; call once per op, before the oracle's own logic
+    fn step(&mut self, i: usize, t: &[&str], out: &str) {
+        let was_after_supd = self.after_supd;
+        match t[0] {
+            "t-ev" | "note" | "t-q" => {}
+            _ => self.after_supd = false,
+        }
+        match t[0] {
+            "t-new" if out == "ok" && t.len() >= 5 => {
+                let n: usize = t[1].parse().unwrap_or(0);
+                for k in 0..n {
+                    self.add(k, 100 + k as u64);
+                }
+            }
+            "t-cnew" if out == "ok" && t.len() == 3 => {
+                if let (Ok(k), Ok(id)) = (t[1].parse(), t[2].parse()) {
+                    self.add(k, id);
+                }
+            }
+            "t-supd" => {
+                self.last_supd = Some(i);
+                self.after_supd = true;
+                self.drained = false;
+            }
+            "t-ev" => {
+                if out == "none" && (was_after_supd || self.after_supd) {
+                    self.drained = true;
+                }
+            }
+            "t-state" => {
+                if let Some(st) = parse_state(out) {
+                    self.last_state = Some((i, st));
+                }
+            }
+            "t-cdisc" | "t-ctdisc" if t.len() == 2 && out == "ok" => {
+                if let Some(s) = t[1].parse().ok().and_then(|k: usize| self.slot.get(&k).copied()) {
+                    self.sess[s].disc_op.get_or_insert(i);
+                    self.sess[s].must_end.get_or_insert(i);
+                }
+            }
+            "t-sdisc" if t.len() == 2 => {
+                self.drained = false;
+                if let Some(s) = t[1].parse().ok().and_then(|id: u64| self.by_id.get(&id).copied()) {
+                    self.sess[s].disc_op.get_or_insert(i);
+                    // only a connection the server has can be ended by it
+                    let known = self.last_state.as_ref().map(|(_, st)| st.rc.contains(&self.sess[s].id)).unwrap_or(false);
+                    if known {
+                        self.sess[s].must_end.get_or_insert(i);
+                    }
+                }
+            }
+            "t-sdiscall" => {
+                self.drained = false;
+                let fresh = match (&self.last_state, self.last_supd) {
+                    (Some((si, _)), Some(u)) => *si > u,
+                    _ => false,
+                };
+                let nc: Vec<u64> = self.last_state.as_ref().map(|(_, st)| st.nc.clone()).unwrap_or_default();
+                for s in self.sess.iter_mut() {
+                    s.disc_op.get_or_insert(i);
+                    if fresh && nc.contains(&s.id) {
+                        s.must_end.get_or_insert(i);
+                    }
+                }
+            }
+            "note" if t.len() >= 2 => match t[1] {
+                "lossless" | "benign" | "lossy" => self.mode = t[1].to_string(),
+                "churn" => self.churn = true,
+                "ghost" => self.ghost = true,
+                "silent" | "blackhole" if t.len() == 3 => {
+                    if let Some(s) = t[2].parse().ok().and_then(|k: usize| self.slot.get(&k).copied()) {
+                        self.sess[s].disc_op.get_or_insert(i);
+                        self.sess[s].must_end.get_or_insert(i);
+                        if t[1] == "silent" {
+                            self.sess[s].silent = true;
+                        }
+                    }
+                }
+                _ => {}
+            },
+            _ => {}
+        }
+    }
+}
+
+fn toks(op: &str) -> Vec<&str> {
+    let t: Vec<&str> = op.split(' ').filter(|s| !s.is_empty()).collect();
+    if t.is_empty() {
+        vec![""]
+    } else {
+        t
+    }
+}
+
+/// (a) after every server update both layers know the same clients
+fn oracle_lockstep(ops: &[String], outs: &[String]) -> Option<OracleFail> {
+    let mut c = Ctx::default();
+    for (i, (op, out)) in ops.iter().zip(outs.iter()).enumerate() {
+        let t = toks(op);
+        let right_after = c.after_supd;
+        c.step(i, &t, out);
+        if t[0] == "t-state" && right_after {
+            let st = parse_state(out)?;
+            if st.rc != st.nc || st.nn != st.nc.len() {
+                return fail(i, "lockstep-sets-differ", format!("after a server update renet reports connected {:?} but netcode holds {:?} (count {})", st.rc, st.nc, st.nn));
+            }
+            if !st.rd.is_empty() {
+                return fail(i, "lockstep-dead-connection-left", format!("after a server update renet still holds disconnected connections {:?}", st.rd));
+            }
+            if !st.bad.is_empty() {
+                return fail(i, "lockstep-wrong-addr-or-userdata", format!("netcode clients {:?} have an address or user data that is not their token's", st.bad));
+            }
+        }
+    }
+    None
+}
+
+/// (b) per id the event stream alternates connected/disconnected starting with connected, only
+/// for ids that exist; with the events drained, an id is connected in renet iff its last event says so
+fn oracle_events(ops: &[String], outs: &[String]) -> Option<OracleFail> {
+    let mut c = Ctx::default();
+    let mut last: HashMap<u64, bool> = HashMap::new();
+    for (i, (op, out)) in ops.iter().zip(outs.iter()).enumerate() {
+        let t = toks(op);
+        let right_after = c.after_supd;
+        c.step(i, &t, out);
+        match t[0] {
+            "t-ev" => {
+                let e: Vec<&str> = out.split(' ').collect();
+                if e.len() >= 2 && (e[0] == "connected" || e[0] == "disconnected") {
+                    let id: u64 = e[1].parse().ok()?;
+                    if !c.by_id.contains_key(&id) {
+                        return fail(i, "event-unknown-id", format!("event {:?} names an id no client was created with", out));
+                    }
+                    let conn = e[0] == "connected";
+                    let prev = last.get(&id).copied().unwrap_or(false);
+                    if conn == prev {
+                        return fail(i, "event-not-alternating", format!("event {:?} does not alternate for id {} (previous event connected={})", out, id, prev));
+                    }
+                    last.insert(id, conn);
+                }
+            }
+            "t-state" if right_after && c.drained => {
+                let st = parse_state(out)?;
+                let mut by_ev: Vec<u64> = last.iter().filter(|(_, v)| **v).map(|(k, _)| *k).collect();
+                by_ev.sort();
+                if by_ev != st.rc {
+                    return fail(i, "events-vs-connected-set", format!("ids whose last event is `connected`: {:?}, renet connected set: {:?}", by_ev, st.rc));
+                }
+            }
+            _ => {}
+        }
+    }
+    None
+}
+
+/// (b') every session's connect reaches the application exactly once (each id stands for one
+/// handshake of one client object; the harness never re-uses a token or an id)
+fn oracle_connect_once(ops: &[String], outs: &[String]) -> Option<OracleFail> {
+    let mut n: HashMap<&str, usize> = HashMap::new();
+    let mut ghost = false;
+    for (i, (op, out)) in ops.iter().zip(outs.iter()).enumerate() {
+        if op == "note ghost" {
+            ghost = true;
+        }
+        if op == "t-ev" && out.starts_with("connected ") {
+            let e = n.entry(&out[10..]).or_insert(0);
+            *e += 1;
+            if *e > 1 {
+                let sig = if ghost { "second-connect-by-handshake-replay" } else { "second-connect-event" };
+                return fail(i, sig, format!("id {} reached the application as connected a second time although its client completed one handshake", &out[10..]));
+            }
+        }
+    }
+    None
+}
+
+/// (c) a disconnect decided by either layer on either side ends the session on both sides
+/// (judged at `note settled`: the script has then run 3 lossless rounds, or the time-out plus a
+/// margin where datagrams could be lost)
+fn oracle_propagation(ops: &[String], outs: &[String]) -> Option<OracleFail> {
+    let mut c = Ctx::default();
+    let mut balance: HashMap<u64, i64> = HashMap::new();
+    for (i, (op, out)) in ops.iter().zip(outs.iter()).enumerate() {
+        let t = toks(op);
+        c.step(i, &t, out);
+        if t[0] == "t-ev" {
+            let e: Vec<&str> = out.split(' ').collect();
+            if e.len() >= 2 {
+                if let Ok(id) = e[1].parse::<u64>() {
+                    *balance.entry(id).or_insert(0) += if e[0] == "connected" { 1 } else { -1 };
+                }
+            }
+        }
+        if op == "note settled" {
+            let (si, st) = match &c.last_state {
+                Some(x) => x.clone(),
+                None => continue,
+            };
+            for s in c.sess.iter() {
+                let m = match s.must_end {
+                    Some(m) if m < si => m,
+                    _ => continue,
+                };
+                if st.rc.contains(&s.id) || st.nc.contains(&s.id) || st.rd.contains(&s.id) {
+                    return fail(i, "server-side-not-ended", format!("session {} (slot {}) was disconnected at op {} ({}) but the server still holds it: {}", s.id, s.k, m, ops[m], outs[si]));
+                }
+                if balance.get(&s.id).copied().unwrap_or(0) > 0 {
+                    return fail(i, "no-disconnect-event", format!("session {} was disconnected at op {} ({}) and is gone, but no `disconnected` event followed its `connected`", s.id, m, ops[m]));
+                }
+                if !s.silent {
+                    if let Some((id, rs, _)) = st.cl.get(&s.k) {
+                        if *id == s.id && !rs.starts_with("disc") {
+                            return fail(i, "client-side-not-ended", format!("session {} (slot {}) was disconnected at op {} ({}) but its client still reports {}", s.id, s.k, m, ops[m], rs));
+                        }
+                    }
+                }
+            }
+        }
+    }
+    None
+}
+
+/// (d) channel guarantees across the whole stack
+fn oracle_channels(ops: &[String], outs: &[String]) -> Option<OracleFail> {
+    let mut c = Ctx::default();
+    // (session, to_server, ch) -> submitted (hex, obtained?)
+    let mut sub: HashMap<(usize, bool, u8), Vec<(String, bool)>> = HashMap::new();
+    let mut got_n: HashMap<(usize, bool, u8), usize> = HashMap::new();
+    let mut both_at_heal_start: HashSet<usize> = HashSet::new();
+    let both = |c: &Ctx| -> HashSet<usize> {
+        let mut r = HashSet::new();
+        if let Some((_, st)) = &c.last_state {
+            for (si, s) in c.sess.iter().enumerate() {
+                if s.disc_op.is_none() && !s.replaced && st.rc.contains(&s.id) && st.cl.get(&s.k).map(|x| x.0 == s.id && x.1 == "connected").unwrap_or(false) {
+                    r.insert(si);
+                }
+            }
+        }
+        r
+    };
+    for (i, (op, out)) in ops.iter().zip(outs.iter()).enumerate() {
+        let t = toks(op);
+        c.step(i, &t, out);
+        match t[0] {
+            "t-send" if t.len() == 4 && out == "ok" => {
+                let ch: u8 = t[2].parse().ok()?;
+                if let Some(s) = c.sess_of(t[1]) {
+                    sub.entry((s, t[1].starts_with('c'), ch)).or_default().push((t[3].to_string(), false));
+                }
+            }
+            "t-bcast" if t.len() == 3 && out.starts_with("ok ") => {
+                let ch: u8 = t[1].parse().ok()?;
+                for id in out[3..].split(',').filter_map(|x| x.parse::<u64>().ok()) {
+                    if let Some(s) = c.by_id.get(&id) {
+                        sub.entry((*s, false, ch)).or_default().push((t[2].to_string(), false));
+                    }
+                }
+            }
+            "t-recv" | "t-recvall" if t.len() == 3 => {
+                let ch: u8 = t[2].parse().ok()?;
+                let msgs: Vec<&str> = if let Some(m) = out.strip_prefix("msg ") {
+                    vec![m]
+                } else if out.starts_with("msgs ") {
+                    out.split(' ').skip(2).collect()
+                } else {
+                    vec![]
+                };
+                if msgs.is_empty() {
+                    continue;
+                }
+                let s = match c.sess_of(t[1]) {
+                    Some(s) => s,
+                    None => return fail(i, "obtained-without-session", format!("{} obtained a message but no session exists for it", t[1])),
+                };
+                // the receiver c<k> obtains what the server submitted, and vice versa
+                let key = (s, !t[1].starts_with('c'), ch);
+                let list = sub.entry(key).or_default();
+                for m in msgs {
+                    match ch {
+                        2 => {
+                            let n = *got_n.get(&key).unwrap_or(&0);
+                            if n >= list.len() {
+                                return fail(i, "ordered-extra", format!("{} obtained a message on the ordered channel beyond the {} submitted in session {}", t[1], list.len(), c.sess[s].id));
+                            }
+                            if list[n].0 != m {
+                                return fail(i, "ordered-not-prefix", format!("{} obtained as message #{} of the ordered channel something else than submitted #{} (session {})", t[1], n, n, c.sess[s].id));
+                            }
+                            list[n].1 = true;
+                            got_n.insert(key, n + 1);
+                        }
+                        1 => match list.iter_mut().find(|e| !e.1 && e.0 == m) {
+                            Some(e) => {
+                                e.1 = true;
+                                *got_n.entry(key).or_insert(0) += 1;
+                            }
+                            None => return fail(i, "unordered-dup-or-fabricated", format!("{} obtained on the unordered reliable channel a message not submitted or already obtained (session {})", t[1], c.sess[s].id)),
+                        },
+                        _ => {
+                            if !list.iter().any(|e| e.0 == m) {
+                                return fail(i, "unreliable-fabricated", format!("{} obtained on the unreliable channel a message never submitted in session {}", t[1], c.sess[s].id));
+                            }
+                        }
+                    }
+                }
+            }
+            "note" if t.len() == 2 && t[1] == "heal-start" => both_at_heal_start = both(&c),
+            "note" if t.len() == 2 && t[1] == "healed" => {
+                let now = both(&c);
+                for ((s, to_server, ch), list) in sub.iter() {
+                    if *ch == 0 || !now.contains(s) || !both_at_heal_start.contains(s) {
+                        continue;
+                    }
+                    let n = list.iter().filter(|e| e.1).count();
+                    if n != list.len() {
+                        return fail(i, "not-delivered-after-heal", format!("session {} channel {} {}: {} of {} submitted messages obtained after the lossless phase", c.sess[*s].id, ch, if *to_server { "client->server" } else { "server->client" }, n, list.len()));
+                    }
+                }
+            }
+            _ => {}
+        }
+    }
+    None
+}
+
+/// (e) interference never ends a healthy session other than through time-outs.
+/// lossless / benign traces (every genuine datagram forwarded in its tick; duplicates, replays,
+/// corrupted copies and reordering on top): no session ends before the script's own disconnect.
+/// lossy traces: a session may end early only through the time-out path (client: a netcode time-out
+/// reason or the server's Disconnect after ITS time-out; server event reason `Transport`).
+fn oracle_no_spurious_end(ops: &[String], outs: &[String]) -> Option<OracleFail> {
+    let mut c = Ctx::default();
+    for (i, (op, out)) in ops.iter().zip(outs.iter()).enumerate() {
+        let t = toks(op);
+        c.step(i, &t, out);
+        if c.mode.is_empty() {
+            continue;
+        }
+        let strict = c.mode != "lossy";
+        // (session, client-side?, renet reason, netcode reason)
+        let mut seen: Vec<(usize, bool, String, String)> = vec![];
+        match t[0] {
+            "t-ev" if out.starts_with("disconnected ") => {
+                let e: Vec<&str> = out.splitn(3, ' ').collect();
+                if let Some(s) = e.get(1).and_then(|x| x.parse::<u64>().ok()).and_then(|id| c.by_id.get(&id).copied()) {
+                    seen.push((s, false, e.get(2).unwrap_or(&"").to_string(), String::new()));
+                }
+            }
+            "t-state" => {
+                if let Some(st) = parse_state(out) {
+                    for (k, (id, rs, nr)) in st.cl.iter() {
+                        if let Some(s) = c.slot.get(k).copied() {
+                            if c.sess[s].id == *id && (rs.starts_with("disc") || nr != "-") {
+                                seen.push((s, true, rs.trim_start_matches("disc:").to_string(), nr.clone()));
+                            }
+                        }
+                    }
+                }
+            }
+            _ => {}
+        }
+        for (s, client_side, rs, nr) in seen {
+            let se = &c.sess[s];
+            if se.disc_op.map(|d| d <= i).unwrap_or(false) {
+                continue;
+            }
+            if c.churn && client_side && nr == "ConnectionDenied" {
+                continue; // the server was full
+            }
+            let side = if client_side { "client" } else { "server" };
+            if strict {
+                return fail(i, &format!("healthy-session-ended-{}", side), format!("session {} (slot {}) ended on the {} side ({} / {}) although every genuine datagram was forwarded and the script had not disconnected it", se.id, se.k, side, rs, nr));
+            }
+            let ok = if client_side {
+                (rs == "Transport" || !rs.is_empty() && nr != "-" && rs == "connected")
+                    && matches!(nr.as_str(), "ConnectionTimedOut" | "ConnectionRequestTimedOut" | "ConnectionResponseTimedOut" | "ConnectTokenExpired" | "DisconnectedByServer")
+                    || (nr != "-" && !rs.starts_with("Packet") && matches!(nr.as_str(), "ConnectionTimedOut" | "ConnectionRequestTimedOut" | "ConnectionResponseTimedOut" | "ConnectTokenExpired" | "DisconnectedByServer") && (rs == "connected" || rs == "connecting" || rs == "Transport"))
+            } else {
+                rs == "Transport"
+            };
+            if !ok {
+                return fail(i, &format!("ended-not-by-timeout-{}", side), format!("session {} (slot {}) ended on the {} side with {} / {} under mere datagram interference", se.id, se.k, side, rs, nr));
+            }
+        }
+    }
+    None
+}
+
+/// (f) nothing unwinds
+fn oracle_no_panic(ops: &[String], outs: &[String]) -> Option<OracleFail> {
+    for (i, o) in outs.iter().enumerate() {
+        if o == "panic" {
+            return fail(i, "panic", format!("op {:?} unwound", ops[i]));
+        }
+    }
+    None
+}
+
+pub fn oracles() -> Vec<Oracle> {
+    vec![
+        Oracle { prop: "C20", name: "tp-lockstep", engines: &["tp-"], check: oracle_lockstep },
+        Oracle { prop: "C20", name: "tp-events", engines: &["tp-"], check: oracle_events },
+        Oracle { prop: "C20", name: "tp-connect-once", engines: &["tp-"], check: oracle_connect_once },
+        Oracle { prop: "C20", name: "tp-propagation", engines: &["tp-"], check: oracle_propagation },
+        Oracle { prop: "C20", name: "tp-channels", engines: &["tp-"], check: oracle_channels },
+        Oracle { prop: "C20", name: "tp-no-spurious-end", engines: &["tp-"], check: oracle_no_spurious_end },
+        Oracle { prop: "C20", name: "tp-no-panic", engines: &["tp-"], check: oracle_no_panic },
+    ]
+}
